@@ -8,7 +8,7 @@ open Earverif.AdmV
 def NoInt {α : Type} (x : R α) : Prop := ∀ k, x ≠ .error (.internal k)
 
 theorem noInt_ok {α : Type} (a : α) : NoInt (.ok a : R α) := by intro k h; cases h
-theorem noInt_adm {α : Type} (k : AdmKind) : NoInt (.error (.adm k) : R α) := by intro k' h; cases h
+theorem noInt_adm {α : Type} (k : AdmKind) (m : Msg) : NoInt (.error (.adm k m) : R α) := by intro k' h; cases h
 
 theorem noInt_bind {α β : Type} {x : R α} {f : α → R β} (hx : NoInt x) (hf : ∀ a, x = .ok a → NoInt (f a)) :
     NoInt (x >>= f) := by
@@ -38,6 +38,52 @@ theorem forE_ok {α : Type} {l : List α} {f : α → R Unit} (h : forE l f = .o
       rcases List.mem_cons.mp hx with rfl | hx
       · exact hfy
       · exact ih h x hx
+    | error e => rw [hfy] at h; cases h
+
+theorem forEI_noInt {α : Type} {l : List α} {f : Nat → α → R Unit} (h : ∀ i, ∀ x ∈ l, NoInt (f i x)) :
+    ∀ i, NoInt (forEI l i f) := by
+  induction l with
+  | nil => intro i; exact noInt_ok ()
+  | cons x xs ih =>
+    intro i
+    unfold forEI
+    have hx := h i x (by simp)
+    cases hfx : f i x with
+    | ok u => simp only; exact ih (fun j y hy => h j y (by simp [hy])) (i + 1)
+    | error e => intro k hk; simp only at hk; exact hx k (by rw [hfx]; exact hk)
+
+theorem forEI_ok {α : Type} {l : List α} {f : Nat → α → R Unit} :
+    ∀ i, forEI l i f = .ok () → ∀ x ∈ l, ∃ j, f j x = .ok () := by
+  induction l with
+  | nil => intro i _ x hx; cases hx
+  | cons y ys ih =>
+    intro i h
+    unfold forEI at h
+    cases hfy : f i y with
+    | ok u =>
+      rw [hfy] at h; simp only at h
+      intro x hx
+      rcases List.mem_cons.mp hx with rfl | hx
+      · exact ⟨i, hfy⟩
+      · exact ih (i + 1) h x hx
+    | error e => rw [hfy] at h; cases h
+
+/-- positional form: element `j` was checked under index `i + j` -/
+theorem forEI_ok_idx {α : Type} {l : List α} {f : Nat → α → R Unit} :
+    ∀ i, forEI l i f = .ok () → ∀ j (hj : j < l.length), f (i + j) l[j] = .ok () := by
+  induction l with
+  | nil => intro i _ j hj; cases hj
+  | cons y ys ih =>
+    intro i h j hj
+    unfold forEI at h
+    cases hfy : f i y with
+    | ok u =>
+      rw [hfy] at h; simp only at h
+      cases j with
+      | zero => simpa using hfy
+      | succ j =>
+        have := ih (i + 1) h j (by simpa using hj)
+        simpa [Nat.add_assoc, Nat.add_comm 1 j] using this
     | error e => rw [hfy] at h; cases h
 
 theorem mapE_noInt {α β : Type} {l : List α} {f : α → R β} (h : ∀ x ∈ l, NoInt (f x)) : NoInt (mapE l f) := by
@@ -260,8 +306,8 @@ theorem possibleReferenceErrors_noInt {d : Doc} {packs : Option (List Nat)} {tra
       · cases hk
       · rename_i e he; injection hk with hk; subst hk; exact hm k he
 
-theorem raiseError_noInt {d : Doc} {packs : Option (List Nat)} {tracks : List Nat} {n : Nat} {a : AdmKind}
-    (h : ∀ t ∈ tracks, TrackOk d t) : NoInt (raiseError d packs tracks n a) := by
+theorem raiseError_noInt {d : Doc} {ctx : Acc} {packs : Option (List Nat)} {tracks : List Nat} {n : Nat} {a : AdmKind}
+    (h : ∀ t ∈ tracks, TrackOk d t) : NoInt (raiseError d ctx packs tracks n a) := by
   intro k hk
   unfold raiseError at hk
   split at hk
@@ -269,18 +315,39 @@ theorem raiseError_noInt {d : Doc} {packs : Option (List Nat)} {tracks : List Na
   · rename_i e he; injection hk with hk; subst hk; exact possibleReferenceErrors_noInt h k he
 
 /-- `raise_error` never returns: the outcome is an error (an ADM one by `raiseError_noInt`) -/
-theorem raiseError_not_ok {d : Doc} {packs : Option (List Nat)} {tracks : List Nat} {n m : Nat} {a : AdmKind} :
-    raiseError d packs tracks n a ≠ .ok m := by
+theorem raiseError_not_ok {d : Doc} {ctx : Acc} {packs : Option (List Nat)} {tracks : List Nat} {n m : Nat} {a : AdmKind} :
+    raiseError d ctx packs tracks n a ≠ .ok m := by
   intro hk
   unfold raiseError at hk
   split at hk <;> cases hk
 
-theorem pathParam_noInt (vals : List (Option Nat)) : NoInt (pathParam vals) := by
+theorem head?_isSome_of_ne {α : Type} {l : List α} (h : l ≠ []) : ∃ a, l.head? = some a := by
+  cases l with
+  | nil => exact absurd rfl h
+  | cons a t => exact ⟨a, rfl⟩
+
+theorem getLast?_isSome_of_ne {α : Type} {l : List α} (h : l ≠ []) : ∃ a, l.getLast? = some a := by
+  cases hl : l.getLast? with
+  | none => exact absurd (List.getLast?_eq_none_iff.mp hl) h
+  | some a => exact ⟨a, rfl⟩
+
+/-- `get_path_param`: the message's `path[0]` / `path[-1]` exist whenever the conflict branch is reached (a value
+that is not `None` was found on the path, so the path is not empty) -/
+theorem pathParam_noInt (n : PName) {ids : List Acc} {vals : List (Option Nat)} (hl : ids.length = vals.length) :
+    NoInt (pathParam n ids vals) := by
   intro k hk
   unfold pathParam at hk
   split at hk
   · cases hk
-  · split at hk <;> cases hk
+  · rename_i v vs hf
+    have hv : vals ≠ [] := by intro h; rw [h] at hf; simp at hf
+    have hi : ids ≠ [] := by
+      intro h; rw [h] at hl
+      exact hv (List.eq_nil_of_length_eq_zero hl.symm)
+    obtain ⟨a, ha⟩ := head?_isSome_of_ne hi
+    obtain ⟨b, hb⟩ := getLast?_isSome_of_ne hi
+    rw [ha, hb] at hk
+    split at hk <;> cases hk
 
 theorem withDefault_noInt {r : R (Option Nat)} (h : NoInt r) : NoInt (withDefault r) := by
   intro k hk
@@ -288,6 +355,18 @@ theorem withDefault_noInt {r : R (Option Nat)} (h : NoInt r) : NoInt (withDefaul
   split at hk
   · cases hk
   · injection hk with hk; subst hk; exact h k rfl
+
+theorem nfcZero_noInt {r : R (Option Nat)} (h : NoInt r) : NoInt (nfcZero r) := by
+  intro k hk
+  unfold nfcZero at hk
+  split at hk
+  · cases hk
+  · cases hk
+  · injection hk with hk; subst hk; exact h k rfl
+
+theorem packParam_len (path : List Nat) (c : Nat) (f : Nat → Option Nat) (x : Option Nat) :
+    (packParamIds path c).length = (path.map f ++ [x]).length := by
+  simp [packParamIds]
 
 theorem hoaGet_noInt {d : Doc} {w : HoaParam} {path : List Nat} {c : Nat}
     (h : (d.chan c).blocks.length = 1) : NoInt (hoaGet d w path c) := by
@@ -301,12 +380,14 @@ theorem hoaGet_noInt {d : Doc} {w : HoaParam} {path : List Nat} {c : Nat}
   unfold hoaGet at hk
   rw [hb] at hk
   cases w with
-  | blockAttr => simp only [unpack1] at hk; cases hk
-  | norm => simp only [first] at hk; exact withDefault_noInt (pathParam_noInt _) k hk
-  | scr => simp only [first] at hk; exact withDefault_noInt (pathParam_noInt _) k hk
+  | rtime => simp only [unpack1] at hk; cases hk
+  | duration => simp only [unpack1] at hk; cases hk
+  | norm => simp only [first] at hk; exact withDefault_noInt (pathParam_noInt _ (packParam_len _ _ _ _)) k hk
+  | nfc => simp only [first] at hk; exact nfcZero_noInt (pathParam_noInt _ (packParam_len _ _ _ _)) k hk
+  | scr => simp only [first] at hk; exact withDefault_noInt (pathParam_noInt _ (packParam_len _ _ _ _)) k hk
 
-theorem singleParamPairs_noInt {get : List Nat → Nat → R (Option Nat)} :
-    ∀ l : List (List Nat × Nat), (∀ x ∈ l, NoInt (get x.1 x.2)) → NoInt (singleParamPairs get l) := by
+theorem singleParamPairs_noInt {n : PName} {get : List Nat → Nat → R (Option Nat)} :
+    ∀ l : List (List Nat × Nat), (∀ x ∈ l, NoInt (get x.1 x.2)) → NoInt (singleParamPairs n get l) := by
   intro l
   induction l with
   | nil => intro _; unfold singleParamPairs; exact noInt_ok ()
@@ -332,8 +413,8 @@ theorem singleParamPairs_noInt {get : List Nat → Nat → R (Option Nat)} :
           · cases hk
           · exact ih' k hk
 
-theorem getSingleParam_noInt {get : List Nat → Nat → R (Option Nat)} {ppc : List (List Nat × Nat)}
-    (h : ∀ x ∈ ppc, NoInt (get x.1 x.2)) (hne : ppc ≠ []) : NoInt (getSingleParam get ppc) := by
+theorem getSingleParam_noInt {n : PName} {get : List Nat → Nat → R (Option Nat)} {ppc : List (List Nat × Nat)}
+    (h : ∀ x ∈ ppc, NoInt (get x.1 x.2)) (hne : ppc ≠ []) : NoInt (getSingleParam n get ppc) := by
   intro k hk
   unfold getSingleParam at hk
   split at hk
@@ -344,19 +425,45 @@ theorem getSingleParam_noInt {get : List Nat → Nat → R (Option Nat)} {ppc : 
       simp only [first] at hk
       exact h a (by simp) k hk
 
+theorem hoaTimes_noInt {d : Doc} {ppc : List (List Nat × Nat)}
+    (h : ∀ x ∈ ppc, (d.chan x.2).blocks.length = 1) (hne : ppc ≠ []) : NoInt (hoaTimes d ppc) := by
+  have hg : ∀ n w, NoInt (getSingleParam n (hoaGet d w) ppc) :=
+    fun n w => getSingleParam_noInt (fun x hx => hoaGet_noInt (h x hx)) hne
+  unfold hoaTimes
+  exact noInt_bind (hg _ _) fun _ _ => noInt_bind (hg _ _) fun _ _ => noInt_ok ()
+
+theorem hoaNorms_noInt {d : Doc} {ppc : List (List Nat × Nat)}
+    (h : ∀ x ∈ ppc, (d.chan x.2).blocks.length = 1) (hne : ppc ≠ []) : NoInt (hoaNorms d ppc) := by
+  have hg : ∀ n w, NoInt (getSingleParam n (hoaGet d w) ppc) :=
+    fun n w => getSingleParam_noInt (fun x hx => hoaGet_noInt (h x hx)) hne
+  unfold hoaNorms
+  exact noInt_bind (hg _ _) fun _ _ => noInt_bind (hg _ _) fun _ _ => noInt_bind (hg _ _) fun _ _ => noInt_ok ()
+
 theorem hoaParams_noInt {d : Doc} {ppc : List (List Nat × Nat)}
     (h : ∀ x ∈ ppc, (d.chan x.2).blocks.length = 1) (hne : ppc ≠ []) : NoInt (hoaParams d ppc) := by
-  have hg : ∀ w, NoInt (getSingleParam (hoaGet d w) ppc) :=
-    fun w => getSingleParam_noInt (fun x hx => hoaGet_noInt (h x hx)) hne
+  unfold hoaParams
+  exact noInt_bind (hoaTimes_noInt h hne) fun _ _ => hoaNorms_noInt h hne
+
+theorem unpack1_noInt {α : Type} {l : List α} (h : l.length = 1) : NoInt (unpack1 l) := by
+  cases l with
+  | nil => cases h
+  | cons a t => cases t with
+    | nil => exact noInt_ok a
+    | cons _ _ => simp at h
+
+theorem hoaPerChannel_noInt {d : Doc} {ppc : List (List Nat × Nat)}
+    (h : ∀ x ∈ ppc, (d.chan x.2).blocks.length = 1) : NoInt (hoaPerChannel d ppc) := by
   intro k hk
-  unfold hoaParams at hk
+  unfold hoaPerChannel at hk
   split at hk
-  · rename_i e he; injection hk with hk; subst hk; exact hg _ k he
-  · split at hk
-    · rename_i e he; injection hk with hk; subst hk; exact hg _ k he
-    · split at hk
-      · rename_i e he; injection hk with hk; subst hk; exact hg _ k he
-      · cases hk
+  · cases hk
+  · rename_i e he; injection hk with hk; subst hk
+    exact mapE_noInt (fun x hx => unpack1_noInt (h x hx)) k he
+
+theorem hoaItemParams_noInt {d : Doc} {ppc : List (List Nat × Nat)}
+    (h : ∀ x ∈ ppc, (d.chan x.2).blocks.length = 1) (hne : ppc ≠ []) : NoInt (hoaItemParams d ppc) := by
+  unfold hoaItemParams
+  exact noInt_bind (hoaTimes_noInt h hne) fun _ _ => noInt_bind (hoaPerChannel_noInt h) fun _ _ => hoaNorms_noInt h hne
 
 theorem getD_mem_or {α : Type} (l : List α) (i : Nat) (x : α) : l.getD i x ∈ l ∨ l.getD i x = x := by
   induction l generalizing i with
@@ -384,7 +491,8 @@ theorem chan_mem_of_hoa {d : Doc} {c : Nat} (h : (d.chan c).type = .hoa) : d.cha
 theorem packChannelTypes_ok {d : Doc} (h : validatePackChannelTypes d = .ok ()) :
     ∀ p ∈ d.packs, ∀ c ∈ p.channels, (d.chan c).type = p.type := by
   intro p hp c hc
-  have h1 := forE_ok (forE_ok h p hp) c hc
+  obtain ⟨i, hi⟩ := forEI_ok 0 h p hp
+  have h1 := forE_ok hi c hc
   split at h1
   · cases h1
   · rename_i hne; simpa using hne
@@ -392,7 +500,8 @@ theorem packChannelTypes_ok {d : Doc} (h : validatePackChannelTypes d = .ok ()) 
 theorem packSubpackTypes_ok {d : Doc} (h : validatePackSubpackTypes d = .ok ()) :
     ∀ p ∈ d.packs, ∀ s ∈ p.packs, (d.pack s).type = p.type := by
   intro p hp c hc
-  have h1 := forE_ok (forE_ok h p hp) c hc
+  obtain ⟨i, hi⟩ := forEI_ok 0 h p hp
+  have h1 := forE_ok hi c hc
   split at h1
   · cases h1
   · rename_i hne; simpa using hne
@@ -400,7 +509,7 @@ theorem packSubpackTypes_ok {d : Doc} (h : validatePackSubpackTypes d = .ok ()) 
 theorem hoaChannels_ok {d : Doc} (h : validateHoaChannels d = .ok ()) :
     ∀ c ∈ d.channels, c.type = .hoa → c.blocks.length = 1 := by
   intro c hc ht
-  have h1 := forE_ok h c hc
+  obtain ⟨i, h1⟩ := forEI_ok 0 h c hc
   simp only [ht, beq_self_eq_true, if_true] at h1
   split at h1
   · cases h1
@@ -460,14 +569,20 @@ theorem bind_ok {α β : Type} {x : R α} {f : α → R β} {b : β} (h : (x >>=
 macro "nis" : tactic =>
   `(tactic| (intro k hk; repeat' (split at hk); all_goals (first | cases hk | skip)))
 
+theorem validateBlock_noInt (b : Block) : NoInt (validateBlock b) := by
+  unfold validateBlock
+  split
+  · exact noInt_adm _ _
+  · refine forE_noInt ?_
+    intro co _; nis
+
 theorem validateElements_noInt (d : Doc) : NoInt (validateElements d) := by
   unfold validateElements
-  refine noInt_bind (forE_noInt ?_) (fun _ _ => noInt_bind (forE_noInt ?_) (fun _ _ => forE_noInt ?_))
+  refine noInt_bind (forE_noInt ?_) (fun _ _ => noInt_bind (forEI_noInt ?_ 0) (fun _ _ => forEI_noInt ?_ 0))
   · intro c _
-    refine forE_noInt (fun b _ => forE_noInt ?_)
-    intro co _; nis
-  · intro s _; nis
-  · intro t _; nis
+    exact forE_noInt (fun b _ => validateBlock_noInt b)
+  · intro i s _; nis
+  · intro i t _; nis
 
 theorem objLoopDfs_noInt (d : Doc) : ∀ f node path, NoInt (objLoopDfs d f node path) := by
   intro f
@@ -477,7 +592,7 @@ theorem objLoopDfs_noInt (d : Doc) : ∀ f node path, NoInt (objLoopDfs d f node
     intro node path
     unfold objLoopDfs
     split
-    · exact noInt_adm _
+    · exact noInt_adm _ _
     · exact forE_noInt (fun c _ => ih c _)
 
 theorem validateObjectLoops_noInt (d : Doc) : NoInt (validateObjectLoops d) :=
@@ -485,31 +600,211 @@ theorem validateObjectLoops_noInt (d : Doc) : NoInt (validateObjectLoops d) :=
 
 theorem validateObjectParams_noInt (d : Doc) : NoInt (validateObjectParams d) := by
   unfold validateObjectParams
-  refine forE_noInt ?_
-  intro o _; nis
+  refine forEI_noInt ?_ 0
+  intro i o _; nis
 
 theorem validatePackChannelTypes_noInt (d : Doc) : NoInt (validatePackChannelTypes d) := by
   unfold validatePackChannelTypes
-  refine forE_noInt (fun p _ => forE_noInt ?_)
+  refine forEI_noInt (fun i p _ => forE_noInt ?_) 0
   intro c _; nis
 
 theorem validatePackSubpackTypes_noInt (d : Doc) : NoInt (validatePackSubpackTypes d) := by
   unfold validatePackSubpackTypes
-  refine forE_noInt (fun p _ => forE_noInt ?_)
+  refine forEI_noInt (fun i p _ => forE_noInt ?_) 0
   intro c _; nis
 
-theorem mtDfs_noInt (d : Doc) : ∀ f node seen path, NoInt (mtDfs d f node seen path) := by
+/-! #### the diagnostics of `_validate_pack_channel_multitree` never raise anything else -/
+
+theorem raiseMsg_noInt {α : Type} {k : AdmKind} {m : R Msg} (h : NoInt m) : NoInt (raiseMsg k m : R α) := by
+  intro k' hk
+  unfold raiseMsg at hk
+  split at hk
+  · cases hk
+  · rename_i e; injection hk with hk; subst hk; exact h k' rfl
+
+theorem raiseMsg_ne_ok {α : Type} {k : AdmKind} {m : R Msg} {a : α} : (raiseMsg k m : R α) ≠ .ok a := by
+  intro h
+  unfold raiseMsg at h
+  split at h <;> cases h
+
+theorem lastWith_some_of_mem (p : Node → Bool) : ∀ (l : List Node) (i : Nat), (∃ x ∈ l, p x = true) →
+    ∃ r, lastWith p l i = some r := by
+  intro l
+  induction l with
+  | nil => intro i h; obtain ⟨x, hx, _⟩ := h; cases hx
+  | cons a t ih =>
+    intro i h
+    unfold lastWith
+    cases ht : lastWith p t (i + 1) with
+    | some r => exact ⟨r, rfl⟩
+    | none =>
+      simp only
+      obtain ⟨x, hx, hpx⟩ := h
+      rcases List.mem_cons.mp hx with rfl | hx
+      · rw [if_pos hpx]; exact ⟨_, rfl⟩
+      · obtain ⟨r, hr⟩ := ih (i + 1) ⟨x, hx, hpx⟩
+        rw [hr] at ht; cases ht
+
+theorem lastWith_spec (p : Node → Bool) : ∀ (l : List Node) (i : Nat) (r : Nat × Node),
+    lastWith p l i = some r → p r.2 = true ∧ r.2 ∈ l := by
+  intro l
+  induction l with
+  | nil => intro i r h; cases h
+  | cons a t ih =>
+    intro i r h
+    unfold lastWith at h
+    cases ht : lastWith p t (i + 1) with
+    | some r' =>
+      rw [ht] at h; simp only at h; injection h with h; subst h
+      obtain ⟨h1, h2⟩ := ih (i + 1) r' ht
+      exact ⟨h1, List.mem_cons_of_mem _ h2⟩
+    | none =>
+      rw [ht] at h; simp only at h
+      split at h
+      · rename_i hp; injection h with h; subst h; exact ⟨hp, by simp⟩
+      · cases h
+
+/-- `loop_exception`: `.index(id(node))` finds the node, because the caller tested `in_by_id(node, path[:-1])` -/
+theorem loopMsg_noInt {pre : List Node} {node : Node} (h : pre.contains node = true) : NoInt (loopMsg pre node) := by
+  intro k hk
+  unfold loopMsg at hk
+  split at hk
+  · rename_i hnone
+    have := List.findIdx?_eq_none_iff.mp hnone node (by simpa using h)
+    simp at this
+  · cases hk
+
+/-- `diamond_exception`: both `max(...)` range over non-empty sequences as soon as the two paths share a node
+before their last element -/
+theorem diamondMsg_noInt {node : Node} {pa pb : List Node} (h : ∃ x ∈ pa.dropLast, x ∈ pb.dropLast) :
+    NoInt (diamondMsg node pa pb) := by
+  obtain ⟨x, hxa, hxb⟩ := h
+  obtain ⟨⟨ia, cp⟩, h1⟩ := lastWith_some_of_mem (fun n => pb.dropLast.contains n) pa.dropLast 0
+    ⟨x, hxa, by simpa using hxb⟩
+  obtain ⟨hcp, _⟩ := lastWith_spec _ _ _ _ h1
+  obtain ⟨⟨ib, y⟩, h2⟩ := lastWith_some_of_mem (fun n => n == cp) pb.dropLast 0
+    ⟨cp, by simpa using hcp, by simp⟩
+  intro k hk
+  unfold diamondMsg at hk
+  rw [h1] at hk
+  simp only [h2] at hk
+  split at hk <;> cases hk
+
+/-- invariant of the `paths` dict during one top-level `dfs(root, {}, ())`: every stored path starts at the root,
+and only the root itself is stored with a one-element path -/
+def MtEntry (r : Node) (e : Node × List Node) : Prop := e.2.head? = some r ∧ (e.1 = r ∨ 2 ≤ e.2.length)
+
+theorem mtLookup_some {paths : MtPaths} {n : Node} {pa : List Node} (h : mtLookup paths n = some pa) :
+    (n, pa) ∈ paths := by
+  unfold mtLookup at h
+  cases hf : paths.find? (fun e => e.1 == n) with
+  | none => rw [hf] at h; cases h
+  | some e =>
+    rw [hf] at h
+    simp only [Option.map_some, Option.some.injEq] at h
+    have hm := List.mem_of_find?_eq_some hf
+    have hp := List.find?_some hf
+    have : e = (n, pa) := by
+      cases e with
+      | mk e1 e2 => simp only at h hp; simp [h, beq_iff_eq.mp hp]
+    rw [← this]; exact hm
+
+theorem mtLookup_none {paths : MtPaths} {n : Node} (h : mtLookup paths n = none) : n ∉ paths.map (·.1) := by
+  unfold mtLookup at h
+  cases hf : paths.find? (fun e => e.1 == n) with
+  | some e => rw [hf] at h; cases h
+  | none =>
+    intro hmem
+    obtain ⟨e, he, hen⟩ := List.mem_map.mp hmem
+    have := List.find?_eq_none.mp hf e he
+    simp [hen] at this
+
+theorem foldE_inv {α σ : Type} {I : σ → Prop} {l : List α} {f : σ → α → R σ}
+    (h : ∀ s, ∀ x ∈ l, I s → NoInt (f s x) ∧ ∀ s', f s x = .ok s' → I s') :
+    ∀ s, I s → NoInt (foldE l s f) ∧ ∀ s', foldE l s f = .ok s' → I s' := by
+  induction l with
+  | nil =>
+    intro s hs
+    refine ⟨noInt_ok s, ?_⟩
+    intro s' h'; unfold foldE at h'; injection h' with h'; subst h'; exact hs
+  | cons x xs ih =>
+    intro s hs
+    obtain ⟨hx1, hx2⟩ := h s x (by simp) hs
+    have ih' := ih (fun t y hy => h t y (by simp [hy]))
+    unfold foldE
+    cases hfx : f s x with
+    | ok s1 => simp only; exact ih' s1 (hx2 s1 hfx)
+    | error e =>
+      simp only
+      refine ⟨?_, ?_⟩
+      · intro k hk; injection hk with hk; subst hk; exact hx1 k hfx
+      · intro s' h'; cases h'
+
+theorem head?_append_singleton_of_ne {α : Type} {l : List α} (x : α) (h : l ≠ []) : (l ++ [x]).head? = l.head? := by
+  cases l with
+  | nil => exact absurd rfl h
+  | cons a t => rfl
+
+/-- the multitree DFS raises only `AdmError`, its two diagnostics included: `loop_exception`'s `.index(...)` and
+`diamond_exception`'s two `max(...)` are total because both paths start at the root of the current top-level DFS -/
+theorem mtDfs_inv (d : Doc) (r : Node) : ∀ f node paths path,
+    (path ++ [node]).head? = some r → (path = [] → paths = []) → (∀ e ∈ paths, MtEntry r e) →
+    NoInt (mtDfs d f node paths path) ∧ ∀ s', mtDfs d f node paths path = .ok s' → ∀ e ∈ s', MtEntry r e := by
   intro f
   induction f with
-  | zero => intro node seen path; unfold mtDfs; exact noInt_ok _
+  | zero =>
+    intro node paths path _ _ hI
+    unfold mtDfs
+    exact ⟨noInt_ok _, fun s' h => by injection h with h; subst h; exact hI⟩
   | succ f ih =>
-    intro node seen path
+    intro node paths path hhead hemp hI
     unfold mtDfs
     split
-    · exact noInt_adm _
-    · split
-      · exact noInt_adm _
-      · exact foldE_noInt (fun s c _ => ih c s _) _
+    · rename_i hc
+      exact ⟨raiseMsg_noInt (loopMsg_noInt hc), fun s' h => absurd h raiseMsg_ne_ok⟩
+    · rename_i hnc
+      split
+      · rename_i pa hl
+        refine ⟨raiseMsg_noInt (diamondMsg_noInt ?_), fun s' h => absurd h raiseMsg_ne_ok⟩
+        have hmem := mtLookup_some hl
+        have hpne : path ≠ [] := by
+          intro hp; rw [hemp hp] at hmem; cases hmem
+        have hrp : path.head? = some r := by rw [← head?_append_singleton_of_ne node hpne]; exact hhead
+        have hrin : r ∈ path := List.mem_of_mem_head? hrp
+        obtain ⟨hh, hor⟩ := hI _ hmem
+        simp only at hh hor
+        have hlen : 2 ≤ pa.length := by
+          rcases hor with heq | hlen
+          · subst heq; exact absurd (by simpa using hrin) hnc
+          · exact hlen
+        refine ⟨r, ?_, ?_⟩
+        · match pa, hh, hlen with
+          | a :: b :: t, hh, _ =>
+            simp only [List.head?_cons, Option.some.injEq] at hh
+            subst hh
+            simp [List.dropLast]
+        · rw [List.dropLast_concat]; exact hrin
+      · have hentry : MtEntry r (node, path ++ [node]) := by
+          refine ⟨hhead, ?_⟩
+          by_cases hp : path = []
+          · left
+            subst hp
+            simpa using hhead
+          · right
+            cases path with
+            | nil => exact absurd rfl hp
+            | cons a t => simp
+        refine foldE_inv (I := fun s => ∀ e ∈ s, MtEntry r e) ?_ _ ?_
+        · intro s c _ hs
+          refine ih c s (path ++ [node]) ?_ (fun h => absurd h (by simp)) hs
+          rw [head?_append_singleton_of_ne c (by simp)]; exact hhead
+        · intro e he
+          rcases List.mem_cons.mp he with rfl | he
+          · exact hentry
+          · exact hI e he
+
+theorem mtDfs_noInt (d : Doc) (p : Nat) : NoInt (mtDfs d (d.packs.length + 2) (.pack p) [] []) :=
+  (mtDfs_inv d (.pack p) _ _ [] [] rfl (fun _ => rfl) (fun _ h => by cases h)).1
 
 theorem validateMultitree_noInt (d : Doc) : NoInt (validateMultitree d) := by
   unfold validateMultitree
@@ -517,31 +812,31 @@ theorem validateMultitree_noInt (d : Doc) : NoInt (validateMultitree d) := by
   intro p _ k hk
   split at hk
   · cases hk
-  · rename_i e he; injection hk with hk; subst hk; exact mtDfs_noInt d _ _ _ _ k he
+  · rename_i e he; injection hk with hk; subst hk; exact mtDfs_noInt d p k he
 
 theorem validateObjectsChannels_noInt (d : Doc) : NoInt (validateObjectsChannels d) := by
   unfold validateObjectsChannels
-  refine forE_noInt ?_
-  intro c _
+  refine forEI_noInt ?_ 0
+  intro ci c _
   split
   · split
-    · exact noInt_adm _
-    · refine forE_noInt ?_
-      intro b _; nis
+    · exact noInt_adm _ _
+    · refine forEI_noInt ?_ 0
+      intro bi b _; nis
   · exact noInt_ok ()
 
 theorem validateHoaChannels_noInt (d : Doc) : NoInt (validateHoaChannels d) := by
   unfold validateHoaChannels
-  refine forE_noInt ?_
-  intro c _; nis
+  refine forEI_noInt ?_ 0
+  intro ci c _; nis
 
 theorem mem_hoaPacks {d : Doc} {p : Nat} (h : p ∈ hoaPacks d) : (d.pack p).type = .hoa := by
   unfold hoaPacks at h
   have := (List.mem_filter.mp h).2
   simpa using this
 
-theorem hoaOrderDegreeStep_noInt {d : Doc} {seen : List (Int × Int)} {c : Nat}
-    (h : (d.chan c).blocks.length = 1) : NoInt (hoaOrderDegreeStep d seen c) := by
+theorem hoaOrderDegreeStep_noInt {d : Doc} {p : Nat} {seen : List (Int × Int)} {c : Nat}
+    (h : (d.chan c).blocks.length = 1) : NoInt (hoaOrderDegreeStep d p seen c) := by
   obtain ⟨b, hb⟩ : ∃ b, (d.chan c).blocks = [b] := by
     cases hbl : (d.chan c).blocks with
     | nil => rw [hbl] at h; cases h
@@ -576,7 +871,7 @@ theorem validateHoaParams_noInt {d : Doc}
   refine forE_noInt ?_
   intro p hp
   split
-  · exact noInt_adm _
+  · exact noInt_adm _ _
   · rename_i hne
     refine hoaParams_noInt (hoa_reachable_one_block hc hs hh (mem_hoaPacks hp)) ?_
     intro hnil
@@ -596,8 +891,8 @@ theorem validateV2Refs_noInt (d : Doc) : NoInt (validateV2Refs d) := by
 
 theorem validateTrackOrChannel_noInt (d : Doc) : NoInt (validateTrackOrChannel d) := by
   unfold validateTrackOrChannel
-  refine forE_noInt ?_
-  intro c _; nis
+  refine forEI_noInt ?_ 0
+  intro i c _; nis
 
 /-- what a successful `validate_structure` establishes (the parts later steps rely on) -/
 theorem getD_mem {α : Type} {l : List α} {i : Nat} (x : α) (h : i < l.length) : l.getD i x ∈ l := by
@@ -621,13 +916,6 @@ theorem ws_obj_tracks {d : Doc} (h : d.wellScoped = true) :
   intro o ho
   simp only [Doc.wellScoped, Bool.and_eq_true, List.all_eq_true] at h
   exact (h.1.1.1.1.1.2 o ho).1.2
-
-theorem unpack1_noInt {α : Type} {l : List α} (h : l.length = 1) : NoInt (unpack1 l) := by
-  cases l with
-  | nil => cases h
-  | cons a t => cases t with
-    | nil => exact noInt_ok a
-    | cons _ _ => simp at h
 
 theorem packFormatPath_noInt {d : Doc} (hu : uniquePaths d = true) {p c : Nat} (hp : p < d.packs.length)
     (hc : c ∈ packChannels d p) : NoInt (packFormatPath d p c) := by
@@ -704,14 +992,17 @@ def visit (d : Doc) : Nat → Node → List Node
   | 0, _ => []
   | f + 1, node => node :: (mtChildren d node).flatMap (visit d f)
 
+/-- keys of the `paths` dict -/
+def mtKeys (s : MtPaths) : List Node := s.map (·.1)
+
 theorem mtDfs_fold_ok (d : Doc) (f : Nat) (path : List Node)
     (ih : ∀ node seen s', mtDfs d f node seen path = .ok s' →
-      (visit d f node).Nodup ∧ (∀ x ∈ visit d f node, x ∉ seen) ∧
-      (∀ x, x ∈ s' ↔ x ∈ visit d f node ∨ x ∈ seen)) :
-    ∀ (cs : List Node) (s0 s' : List Node),
+      (visit d f node).Nodup ∧ (∀ x ∈ visit d f node, x ∉ mtKeys seen) ∧
+      (∀ x, x ∈ mtKeys s' ↔ x ∈ visit d f node ∨ x ∈ mtKeys seen)) :
+    ∀ (cs : List Node) (s0 s' : MtPaths),
       foldE cs s0 (fun s c => mtDfs d f c s path) = .ok s' →
-      (cs.flatMap (visit d f)).Nodup ∧ (∀ x ∈ cs.flatMap (visit d f), x ∉ s0) ∧
-      (∀ x, x ∈ s' ↔ x ∈ cs.flatMap (visit d f) ∨ x ∈ s0) := by
+      (cs.flatMap (visit d f)).Nodup ∧ (∀ x ∈ cs.flatMap (visit d f), x ∉ mtKeys s0) ∧
+      (∀ x, x ∈ mtKeys s' ↔ x ∈ cs.flatMap (visit d f) ∨ x ∈ mtKeys s0) := by
   intro cs
   induction cs with
   | nil =>
@@ -754,10 +1045,10 @@ theorem mtDfs_fold_ok (d : Doc) (f : Nat) (path : List Node)
           · exact Or.inr (Or.inr h)
 
 /-- a successful multitree DFS visited pairwise different nodes, none of them seen before -/
-theorem mtDfs_ok (d : Doc) : ∀ (f : Nat) (path : List Node) (node : Node) (seen s' : List Node),
+theorem mtDfs_ok (d : Doc) : ∀ (f : Nat) (path : List Node) (node : Node) (seen s' : MtPaths),
     mtDfs d f node seen path = .ok s' →
-      (visit d f node).Nodup ∧ (∀ x ∈ visit d f node, x ∉ seen) ∧
-      (∀ x, x ∈ s' ↔ x ∈ visit d f node ∨ x ∈ seen) := by
+      (visit d f node).Nodup ∧ (∀ x ∈ visit d f node, x ∉ mtKeys seen) ∧
+      (∀ x, x ∈ mtKeys s' ↔ x ∈ visit d f node ∨ x ∈ mtKeys seen) := by
   intro f
   induction f with
   | zero =>
@@ -769,12 +1060,14 @@ theorem mtDfs_ok (d : Doc) : ∀ (f : Nat) (path : List Node) (node : Node) (see
     intro path node seen s' h
     unfold mtDfs at h
     split at h
-    · cases h
+    · exact absurd h raiseMsg_ne_ok
     · split at h
-      · cases h
-      · rename_i _ hseen
-        have hns : node ∉ seen := by simpa using hseen
+      · exact absurd h raiseMsg_ne_ok
+      · rename_i hseen
+        have hns : node ∉ mtKeys seen := mtLookup_none hseen
         obtain ⟨n1, d1, m1⟩ := mtDfs_fold_ok d f (path ++ [node]) (ih (path ++ [node])) _ _ _ h
+        have hk : mtKeys ((node, path ++ [node]) :: seen) = node :: mtKeys seen := rfl
+        rw [hk] at d1 m1
         refine ⟨?_, ?_, ?_⟩
         · simp only [visit]
           refine List.nodup_cons.mpr ⟨?_, n1⟩
